@@ -57,5 +57,6 @@ package watch
 //@   requires w != nil && w.fsw != nil && w.r != nil && runnerOK(w.r) && w.task != nil && taskOK(w.task) && compiledClosed()
 //@   modifies *
 //@   ensures #C20.serves-until-closed w.isClosed || closed(w.fsw.Events) || closed(w.fsw.Errors)
+//@   ensures #C20.never-unwatches-a-path calls(Remove) == 0 // a renamed path is re-added, nothing is ever removed from the notification backend
 //@   loop 1 "for"
 //@     invariant #same w != nil && w.fsw != nil && w.r != nil && runnerOK(w.r) && w.task != nil && taskOK(w.task) && compiledClosed()
